@@ -357,6 +357,36 @@ def h_supernet_summary_idempotent(H, n, training):
     H.ensure('supernet-observer:summary-keeps-alpha', H.eq(comb.alpha, alpha))
 
 
+def h_cost_ignores_weights(H, method):
+    """C12: the cost depends on the architectural parameters only: overwriting every network weight / bias (and, for MPS, every
+    quantizer clip value) with other arbitrary values leaves every built-in metric unchanged"""
+    if method == 'pit':
+        model, la, ld, plain, leaf = _pit_model(H, {'params': params, 'ops': ops}, True, False)
+        names = ('params', 'ops')
+    elif method == 'mps':
+        from plinio.cost import params_bit, ops_bit
+        model, inp, l1, l2, plain, act = _mps_model(H, {'params_bit': params_bit, 'ops_bit': ops_bit}, False)
+        model.eval()
+        for q in (inp.out_mps_quantizer, act, l1.w_mps_quantizer, l2.out_mps_quantizer, l2.w_mps_quantizer):
+            q.sample_alpha()
+        names = ('params_bit', 'ops_bit')
+    else:
+        model, comb, branches, fixed = _supernet_model(H, {'params': params, 'ops': ops}, True, 2)
+        th = H.tensor('theta', (2,))
+        H.assume(H.and_(H.ge(th, 0), H.eq(H.sum(H.elements(th)), 1)))         # C10: the sampled coefficients are a probability vector
+        comb.theta_alpha = th
+        names = ('params', 'ops')
+    before = [H.scalar(model.get_cost(n)) for n in names]
+    k = 0
+    for pname, p in model.named_net_parameters():
+        H.set_(p, H.tensor('new.%d' % k, H.shape(p)))
+        k += 1
+    after = [H.scalar(model.get_cost(n)) for n in names]
+    for n, b, a in zip(names, before, after):
+        H.ensure('cost:%s-does-not-depend-on-network-weights' % n, H.eq(a, b))
+        H.ensure('cost:%s-defined-and-non-negative' % n, H.ge(b, 0))
+
+
 def h_export_observer(H, method, training, add_bn):
     """export() is an observer: whatever the conversion does to its own copy, the searched model keeps its mode, parameters,
     buffers, fused BatchNorms and cost; the conversion itself (torch.fx) is an assumed contract that forces eval() while tracing"""
@@ -440,6 +470,10 @@ HARNESSES = [
                     _P + 'supernet/nn/combiner.py::SuperNetCombiner.get_cost', _P + 'supernet/nn/combiner.py::SuperNetCombiner.set_sn_branch'],
          quick=[dict(shared=s, full_cost=f, n=n, one_hot=o) for s in _B for f in _B for n, o in ((2, False), (3, True))],
          thorough=[dict(shared=s, full_cost=f, n=n, one_hot=o) for s in _B for f in _B for n in (1, 2, 3) for o in _B], timeout=60),
+    dict(name='cost-ignores-weights', fn='h_cost_ignores_weights', property=['C12'],
+         functions=[_P + 'pit/pit.py::PIT._get_single_cost', _P + 'mps/mps.py::MPS._get_single_cost', _P + 'supernet/supernet.py::SuperNet._get_single_cost',
+                    _P + 'pit/pit.py::PIT.named_net_parameters', _P + 'mps/mps.py::MPS.named_net_parameters', _P + 'supernet/supernet.py::SuperNet.named_net_parameters'],
+         quick=[dict(method=m) for m in ('pit', 'mps', 'supernet')], thorough=[dict(method=m) for m in ('pit', 'mps', 'supernet')], timeout=90),
     dict(name='supernet-cost-dict', fn='h_supernet_cost_dict', property=['C06', 'C18'],
          functions=[_P + 'supernet/supernet.py::SuperNet._get_single_cost', _P + 'supernet/supernet.py::SuperNet.cost_specification', _P + 'dnas_base/dnas.py::DNAS.get_cost'],
          quick=[dict(full_cost=f) for f in _B], thorough=[dict(full_cost=f) for f in _B]),
